@@ -2,6 +2,10 @@ package sqlite
 
 import (
 	"database/sql"
+	"encoding/hex"
+	"fmt"
+
+	"github.com/elnosh/gonuts/crypto"
 
 	v "github.com/elnosh/gonuts/verifrt"
 )
@@ -19,3 +23,58 @@ func VhNewDB() *SQLiteDB {
 }
 
 func (s *SQLiteDB) VhRaw() *sql.DB { return s.db }
+
+// Storage-level list lookups (what verifyProofs / state check / restore rely on for *every* position of a request):
+// the spent, pending and signature lookups return exactly the stored rows whose key is in the list, also for lists
+// longer than SQLite's historical 999-parameter limit.
+func VHarnessStorageLists() {
+	db := VhNewDB()
+	raw := db.VhRaw()
+	v.SqlSymRows(raw, "proofs", 1)
+	v.SqlSymRows(raw, "pending_proofs", 1)
+	v.SqlSymRows(raw, "blind_signatures", 1)
+	n := []int{1, 2, 1001}[v.Int("len", 0, 2)]
+	// the request: Ys of n distinct concrete secrets (the stored rows carry y = Y(secret) of an arbitrary secret), n distinct B_ strings
+	ys := make([]string, n)
+	bs := make([]string, n)
+	for i := range ys {
+		Y, err := crypto.HashToCurve([]byte(fmt.Sprintf("listed-secret-%d", i)))
+		v.Assume(err == nil)
+		ys[i] = hex.EncodeToString(Y.SerializeCompressed())
+		bs[i] = fmt.Sprintf("02storagekey%d", i)
+	}
+	in := func(table, col string) bool {
+		key := v.SqlRowStr(raw, table, 0, col)
+		hit := false
+		for i := range ys {
+			if col == "b_" {
+				hit = v.Or(hit, key == bs[i])
+			} else {
+				hit = v.Or(hit, key == ys[i])
+			}
+		}
+		return v.And(v.SqlRowPresent(raw, table, 0), hit)
+	}
+	wantUsed, wantPend, wantSig := in("proofs", "y"), in("pending_proofs", "y"), in("blind_signatures", "b_")
+	used, err := db.GetProofsUsed(ys)
+	v.Assert(err == nil, "C01 the spent lookup answers for a list of any length")
+	if err == nil {
+		v.Assert((len(used) == 1) == wantUsed, "C01 the spent lookup finds a spent secret at every position of the list")
+		v.Assert(len(used) <= 1, "C01 the spent lookup returns only stored rows")
+	}
+	pend, err := db.GetPendingProofs(ys)
+	v.Assert(err == nil, "C01 the pending lookup answers for a list of any length")
+	if err == nil {
+		v.Assert((len(pend) == 1) == wantPend, "C01 the pending lookup finds a locked secret at every position of the list")
+		v.Assert(len(pend) <= 1, "C01 the pending lookup returns only stored rows")
+	}
+	sigs, err := db.GetBlindSignatures(bs)
+	v.Assert(err == nil, "C15 the signature lookup answers for a list of any length")
+	if err == nil {
+		v.Assert((len(sigs) == 1) == wantSig, "C15 the signature lookup finds a signed message at every position of the list")
+	}
+	v.Reach("looked-up")
+	if n > 999 {
+		v.Reach("long-list")
+	}
+}
